@@ -119,6 +119,7 @@ func c06r2(c *core.Ctx) {
 			list, idx := enclosingStmtList(f, call)
 			var mv *ast.CallExpr
 			var mvResults []string
+			var mvPrefix []ast.Stmt // the statements before the move in the move's own statement list
 			if list != nil {
 				// the callback may sit in `if fn != nil { fn(...) }`: search the parent list too
 				search := list[:idx]
@@ -127,7 +128,7 @@ func c06r2(c *core.Ctx) {
 				}
 				outer, oi := list, idx
 				for tries := 0; tries < 2 && mv == nil; tries++ {
-					for _, st := range outer[:oi] {
+					for si, st := range outer[:oi] {
 						ast.Inspect(st, func(x ast.Node) bool {
 							c2, isC := x.(*ast.CallExpr)
 							if !isC {
@@ -135,6 +136,7 @@ func c06r2(c *core.Ctx) {
 							}
 							if k2, cal, _ := m.Callee(c2); k2 == core.CallStatic && (isMover(cal)) {
 								mv = c2
+								mvPrefix = outer[:si]
 								if as, isAs := st.(*ast.AssignStmt); isAs {
 									mvResults = nil
 									for _, l := range as.Lhs {
@@ -178,7 +180,17 @@ func c06r2(c *core.Ctx) {
 			} else {
 				// start := dst.Len() read before the move; count = the count passed to the move
 				okStart := false
-				for _, sv := range valueChain(m, f, call.Args[1], 0) {
+				startChain := valueChain(m, f, call.Args[1], 0)
+				if sel, isSel := ast.Unparen(m.StripConv(call.Args[1])).(*ast.SelectorExpr); isSel {
+					// the start travels through a record field: `rec.start = dst.Len()` stored before the move in the same
+					// statement list (hence the same iteration); the last such store is the value read by the callback
+					for _, st := range mvPrefix {
+						if as, isAs := st.(*ast.AssignStmt); isAs && len(as.Lhs) == 1 && len(as.Rhs) == 1 && m.ExprString(as.Lhs[0]) == m.ExprString(sel) {
+							startChain = valueChain(m, f, as.Rhs[0], 0)
+						}
+					}
+				}
+				for _, sv := range startChain {
 					if strings.HasSuffix(sv, ".Len()") || strings.HasSuffix(sv, ".len") {
 						dst := strings.TrimSuffix(strings.TrimSuffix(sv, ".Len()"), ".len")
 						// the read must precede the move (the defining statement of the local)
